@@ -43,6 +43,7 @@ def run(tier, seed):
     o2, m2 = faces.bisector_obligations("C16")
     obs += [x for x in o2 if "returns_iff_safety_radius" in x.name or x.name.endswith("bisector.defined") or x.expect_sat]; fns.append(m2)
     obs += update_sites("C16")
+    o3, u3 = init_obligations("C16"); obs += o3; fns += [{"fn": x.label + " (whole function, update_safety_radius inlined)", "slice_sha": x.sha} for x in u3]
     smt.discharge_all(obs, tier)
     results = [runner.from_smt(o) for o in obs]
     results += kani.run_specs("C16", e3sets.SAFETY, tier)
@@ -59,3 +60,57 @@ def run(tier, seed):
                        "rebuild of the vertex set; update_safety_radius = 2 * sqrt(max radius2) >= 2 * every vertex distance (bounded).",
     }
     return results, meta
+
+
+def init_obligations(prefix):
+    """ConvexCell::init, run symbolically as a whole (eight Vertex::from_dual calls, ConvexCell::new, update_safety_radius with the iterator
+    chain map / max_by unrolled over the eight vertices by std's fold semantics): the initial safety radius is twice the largest vertex distance."""
+    from .. import symex, terms as tm
+    from ..terms import Var, And, Or, Eq, Ge, Le, Implies, TRUE
+    from ..symex import Struct, SymArr, Vec
+    from ..e2 import Unit, vec, real, dim_enum, R0
+    from . import faces as F
+    XF = ("voronoi/half_space.rs", "geometry.rs", "voronoi/generator.rs", "voronoi/boundary.rs")
+    u = Unit(CC, "ConvexCell::init")
+    dim, dimc = dim_enum()
+    planes = F.sym_cell("bd")[1]
+    planes.length = Var("n_planes", "Int", "usize")
+    sb = Struct("SimulationBoundary", {"clipping_planes": planes, "dimensionality": dim})
+    loc = vec("loc")
+    vl = []
+    def intersect_contract(interp, env, node, args):
+        v = vec("vloc%d" % len(vl)); vl.append(v); return v
+    ctx = symex.Ctx()
+    ctx.contracts["intersect_planes"] = intersect_contract
+    ctx.contracts["SimpleCycle::new"] = lambda interp, env, node, args: Struct("SimpleCycle", {})
+    r, env, ctx, it = u.run({"loc": loc, "idx": Var("idx", "Int", "usize"), "simulation_boundary": sb}, ctx, extra_files=XF)
+    if len(vl) != 8 or not isinstance(r, Struct) or "safety_radius" not in r.f: raise extract.Undecided("lost anchor: ConvexCell::init builds eight vertices and returns the cell")
+    verts = r.f["vertices"]
+    sr = r.f["safety_radius"]
+    r2 = [v.f["radius2"] for v in verts.e]
+    pre = dimc + [Ge(planes.length, tm.Const(6, "Int"))]
+    P = pre + ctx.assume + ctx.ok
+    four = tm.Const(4, "Real")
+    obs = [Obligation(prefix + ".init.requires_satisfiable", P, TRUE, u.label, expect_sat=True)]
+    obs.append(Obligation(prefix + ".init.safety_radius_is_at_least_twice_every_vertex_distance", P, And(Ge(sr, R0), *[Ge(sr * sr, four * x) for x in r2]), u.label, timeout=240, replay=replay_radius,
+                          note="radius2 of each vertex is its squared distance in the active subspace (from_dual contract)"))
+    return obs, [u]
+
+
+def replay_radius(ob):
+    """Cells that are never (or rarely) clipped, through the public API: the reported safety radius must be at least twice the distance from
+    the generator to every corner of its cell - for a single generator in a reflective box the cell is the box, so the corners are known."""
+    from ..runner import replay_requests
+    reqs = []
+    for d in (3, 2, 1):
+        for g in ([0.1, 0.9, 0.5], [0.5, 0.5, 0.5], [0.85, 0.2, 0.1]):
+            gg = [g[0], g[1] if d >= 2 else 0.0, g[2] if d == 3 else 0.0]
+            reqs.append({"op": "build", "gens": [gg], "anchor": [0, 0, 0], "width": [1.0, 2.0 if d >= 2 else 1.0, 1.5 if d == 3 else 1.0], "dim": d})
+    bad = []
+    for rq, a in zip(reqs, replay_requests(reqs, timeout=120)):
+        if "cells" not in a: continue
+        g, w, d = rq["gens"][0], rq["width"], rq["dim"]
+        far = sum(max(g[i], w[i] - g[i]) ** 2 for i in range(d)) ** 0.5
+        sr = a["cells"][0]["safety_radius"]
+        if not sr >= 2 * far * (1 - 1e-12): bad.append({"request": rq, "reported_safety_radius": sr, "twice_the_distance_to_the_farthest_corner": 2 * far})
+    return {"reproduced": bool(bad), "runs": bad[:2], "what": "reported safety radius of a single-generator cell is below twice the distance to its farthest corner"}
